@@ -346,7 +346,7 @@ func emitCall(w *bufio.Writer, sc *scenario, id, reps int, kind, extra string) {
 		fmt.Fprintf(w, "scn %s %d builderr\nbuilderr %s\nend\n", kind, id, strings.ReplaceAll(err.Error(), "\n", " "))
 		return
 	}
-	sc.header(w, kind, id, extra)
+	sc.header(w, kind, id, strings.TrimSpace(extra+" argform="+sc.argForm()))
 	fmt.Fprintln(w, sc.dumpGraph(false))
 	for rep := 0; rep < reps; rep++ {
 		fmt.Fprintf(w, "run %d\n", rep)
